@@ -19,11 +19,11 @@ import (
 // C10 — caller-owned arguments are never modified (snapshot monitor).
 
 type nodeSnap struct {
-	P                                *html.Node
-	Type                             html.NodeType
-	Atom                             uint32
-	Data, NS                         string
-	Attr                             []html.Attribute
+	P                               *html.Node
+	Type                            html.NodeType
+	Atom                            uint32
+	Data, NS                        string
+	Attr                            []html.Attribute
 	Parent, Prev, Next, First, Last *html.Node
 }
 
@@ -187,7 +187,7 @@ func loopback() *httptest.Server {
 
 func init() {
 	register(&Prop{
-		ID: "C10",
+		ID:   "C10",
 		Rule: "histories of calls on caller-owned arguments: a G-article page with every construct that makes the pipeline rewrite nodes (javascript: anchors, font, noscript/lazy images, picture without img, embeds, twitter quotes, figures, data tables) is parsed once; roots = the document, a random attached element, a detached clone; a history of 5 calls (same tree, same *Options reused, other algorithm/flags through fresh Options sharing the same *url.URL, nil options) runs and after EVERY call a deep snapshot of the whole tree (from the top-most ancestor: node identity, Type, DataAtom, Data, Namespace, attributes, all five links) and of Options + *url.URL (incl. Userinfo) is compared with the snapshot before. ApplyForReader/ApplyForFile are checked for the Options; ApplyForURL runs against an in-process loopback HTTP server with opts in {nil, OriginalURL nil, OriginalURL = another URL} over addresses with query, fragment and a temporary redirect; Result.URL must be the address the document was fetched from (fragment kept) and the whole result must equal ApplyForReader on the same bytes with OriginalURL = that address. Non-trivial = a call that returned a result; distinct = distinct (entry point, root kind, block kinds of the page).",
 		Assumptions: []string{
 			"loopback HTTP (127.0.0.1) is available in the sandbox",
